@@ -29,7 +29,7 @@ ASSUMPTIONS = [
 
 @st.composite
 def _case(draw, tier):
-    raw = draw(rawgraphs.raw_case())
+    raw = draw(rawgraphs.raw_case(trainable=True))
     return dict(raw=raw, mode=draw(st.sampled_from(compiledrun.MODES)), prune=draw(st.booleans()), s_init=draw(st.integers(0, 4)) == 0)
 
 
@@ -164,7 +164,10 @@ def check(case) -> CaseResult:
     except AssertionError as ex:
         res.fail("C07.graph_construction_fails", dict(err=str(ex)[:200], mode=case["mode"], prune=case["prune"]))
         return res
-    validate_schedule(case, graph, res)
+    ext = rawgraphs.window_extensions(raw) if "rates" in raw else None
+    if ext:
+        res.label("trainable_window_extension")
+    validate_schedule(case, graph, res, extra=ext)
     lens = {len(ep["verts"][sup]["start"]) for ep in raw["episodes"]}
     res.nontrivial = len(lens) > 1 or "masked_slots" in res.classes
     if any(any(s == r for s in ep["verts"][c["dst"]]["start"] for r in ep["edges"][ci]["recv"]) for ep in raw["episodes"] for ci, c in enumerate(raw["conns"])):
